@@ -89,7 +89,7 @@ example : (step St.init (.read 300) fullOracle).1 = ⟨300, 300, 600⟩ ∧
     buffer, and a negative SEEK_SET position makes indx negative so that the next read starts before
     the buffer.  No call site in src/*.c passes a negative 'p' argument (constants, the PAF header
     length, the 28-bit ID3 size); 'b' sizes are sizeof-style or range-checked by the caller — except
-    caf_read_strings on a pipe, where the hypothesis IS violated by a reachable input (§8 below). -/
+    caf_read_strings on a pipe, where the hypothesis WAS violated by a reachable input until round 4 (§8 below). -/
 theorem hdr_args_necessary :
     (¬ ∀ e ∈ (step ⟨4, 4, 256⟩ (.read (-1)) fullOracle).2, e.inBounds (step ⟨4, 4, 256⟩ (.read (-1)) fullOracle).1.len) ∧
     ¬ HeaderCache.Inv (step St.init (.seek false (-1) 0) fullOracle).1 ∧
@@ -498,15 +498,19 @@ example : Sf.SdsScan.scan .current 402 (fun _ => (2, 0xF07E)) 4 0 21 0xF07E = so
     Sf.SdsScan.scan .current Sf.SdsScan.SF_COUNT_MAX Sf.SdsScan.eof 1 0 19 0xF07E = some 0 ∧
     Sf.SdsScan.scan .old Sf.SdsScan.SF_COUNT_MAX Sf.SdsScan.eof 50 0 19 0xF07E = none := by decide
 
-/-! ## 6. the chunk loops of the IFF-family parsers: same shape
+/-! ## 6. the chunk loops of the IFF-family parsers — the OLD rule
 
-wav.c:658, rf64.c:379, aiff.c:923, svx.c:321 all leave their `while (! done)` loop through
-`if (psf_ftell (psf) >= psf->filelength - k) break`.  An iteration that makes no progress in the FILE
-(end of input, or a chunk whose size field is 0xFFFFFFF8: the 'j' jump of -8 stays inside the header
-cache and the same chunk is parsed again) is the `eof` oracle below. -/
+Repaired in round 4 (fixes 0001–0003: psf_binheader_tell + "an iteration must end behind the offset it started
+at"; known findings KF-C03-pipe-chunk-loop, KF-C03-svx-backjump, KF-C15-SCAN-HANG, now `fixed`, witnesses replayed
+as regression scripts).  The current loops are proved bounded at full strength in SfProps/C03Loops.lean
+(`chunk_loop_bounded_by_input`, `chunk_loop_bounded_by_length`).  What follows is about `Sf.SvxLoop.loop`, the loop
+as it WAS: wav.c, rf64.c, aiff.c, svx.c, caf.c left their `while (! done)` loop only through
+`if (psf_ftell (psf) >= psf->filelength - k) break`.  An iteration that makes no progress in the FILE (end of
+input, or a chunk whose size field is 0xFFFFFFF8: the 'j' jump of -8 stays inside the header cache and the same
+chunk is parsed again) is the `eof` oracle below. -/
 open Sf.SvxLoop in
 /-- at end of input the loop is left within one iteration -/
-def svx_eof_exits_full : Prop :=
+def svx_eof_exits_full_old_rule : Prop :=
   ∀ (filelength pos : Int) (k : Nat), 0 ≤ pos → (loop filelength eof 1 k pos).isSome
 
 /-- the known-finding class: non-seekable input, psf->filelength = SF_COUNT_MAX -/
@@ -515,7 +519,7 @@ def KF.chunkLoopPipe (filelength : Int) : Prop := filelength = Sf.SdsScan.SF_COU
 instance (l : Int) : Decidable (KF.chunkLoopPipe l) := by unfold KF.chunkLoopPipe; infer_instance
 
 open Sf.SvxLoop in
-theorem svx_eof_runs (filelength : Int) : ∀ (fuel k : Nat) (pos : Int), pos < filelength - 4 → loop filelength eof fuel k pos = none := by
+theorem svx_eof_runs_old_rule (filelength : Int) : ∀ (fuel k : Nat) (pos : Int), pos < filelength - 4 → loop filelength eof fuel k pos = none := by
   intro fuel
   induction fuel with
   | zero => intro k pos _; rfl
@@ -530,15 +534,15 @@ theorem svx_eof_runs (filelength : Int) : ∀ (fuel k : Nat) (pos : Int), pos < 
 open Sf.SvxLoop in
 /-- on a pipe the loop is still running after any number of iterations
     (witnesses: findings/C03-svx-pipe-loop.txt, findings/C03-wav-pipe-backjump.txt) -/
-theorem svx_eof_exits_fails : ¬ svx_eof_exits_full := by
+theorem svx_eof_exits_fails_old_rule : ¬ svx_eof_exits_full_old_rule := by
   intro h
   have h1 := h Sf.SdsScan.SF_COUNT_MAX 53 0 (by decide)
-  rw [svx_eof_runs Sf.SdsScan.SF_COUNT_MAX 1 0 53 (by decide)] at h1
+  rw [svx_eof_runs_old_rule Sf.SdsScan.SF_COUNT_MAX 1 0 53 (by decide)] at h1
   cases h1
 
 open Sf.SvxLoop in
 /-- on a regular file (psf_ftell = filelength at end of input) it is left at once -/
-theorem svx_eof_exits_partial (filelength pos : Int) (k : Nat) (hend : filelength ≤ pos) :
+theorem svx_eof_exits_partial_old_rule (filelength pos : Int) (k : Nat) (hend : filelength ≤ pos) :
     (loop filelength eof 1 k pos).isSome := by
   unfold loop
   simp only [eof, Bool.false_eq_true, if_false]
@@ -550,7 +554,7 @@ example : Sf.SvxLoop.loop 100 Sf.SvxLoop.eof 1 0 100 = some 0 ∧ Sf.SvxLoop.loo
     KF.chunkLoopPipe Sf.SdsScan.SF_COUNT_MAX := by decide
 
 open Sf.SvxLoop in
-theorem loop_progress_terminates (filelength : Int) (o : Nat → Nat × Bool) (hprog : ∀ k, 1 ≤ (o k).1) :
+theorem loop_progress_terminates_old_rule (filelength : Int) (o : Nat → Nat × Bool) (hprog : ∀ k, 1 ≤ (o k).1) :
     ∀ (n k : Nat) (pos : Int), filelength - 4 - pos ≤ n + 1 → (loop filelength o (n + 1) k pos).isSome := by
   intro n
   induction n with
@@ -580,11 +584,11 @@ def KF.svxBackJump (o : Nat → Nat × Bool) : Prop := ∃ k, (o k).1 = 0
 
 /-- outside that class (every iteration consumes at least one byte of the file) the chunk loop ends
     within filelength - pos iterations, on every route with a finite length
-    (the looping case is `svx_eof_runs`, which holds for every filelength; witness findings/C03-svx-backjump.txt) -/
-theorem svx_loop_bounded_partial (filelength : Int) (o : Nat → Nat × Bool) (pos : Int) (k : Nat)
+    (the looping case is `svx_eof_runs_old_rule`, which holds for every filelength; witness findings/C03-svx-backjump.txt) -/
+theorem svx_loop_bounded_partial_old_rule (filelength : Int) (o : Nat → Nat × Bool) (pos : Int) (k : Nat)
     (hpos : 0 ≤ pos) (hf : pos ≤ filelength) (h : ¬ KF.svxBackJump o) :
     (Sf.SvxLoop.loop filelength o ((filelength - pos).toNat + 1) k pos).isSome := by
-  apply loop_progress_terminates
+  apply loop_progress_terminates_old_rule
   · intro j
     unfold KF.svxBackJump at h
     have : ¬ (o j).1 = 0 := fun hz => h ⟨j, hz⟩
@@ -592,38 +596,12 @@ theorem svx_loop_bounded_partial (filelength : Int) (o : Nat → Nat × Bool) (p
   · have : ((filelength - pos).toNat : Int) = filelength - pos := Int.toNat_of_nonneg (by omega)
     omega
 
-/-! ## 8. a reachable violation of the header-cache hypothesis: CAF `info` over a pipe
+/-! ## 8. CAF `info` over a pipe: a reachable violation of the header-cache hypothesis — repaired
 
-caf_read_header accepts an `info` chunk when `chunk_size <= psf->filelength - indx` (caf.c:529) — no
-limit at all on a pipe — and caf_read_strings passes `(size_t) (chunk_size - 4)` to the 'b' conversion
-of psf_binheader_readf, which stores it in an `int`. -/
-
-/-- the `count` psf_binheader_readf's 'b' sees for a CAF info chunk of `chunk_size` bytes -/
-def cafInfoCount (chunk_size : Int) : Int := Sf.wrapS 32 (chunk_size - 4)
-
-/-- the known-finding class: that count is negative (memset / memcpy with a negative size) -/
-def KF.cafInfoNegative (chunk_size : Int) : Prop := cafInfoCount chunk_size < 0
-
-instance (c : Int) : Decidable (KF.cafInfoNegative c) := by unfold KF.cafInfoNegative; infer_instance
-
-/-- full strength: the 'b' conversion always gets an argument in the range `Item.argsOk` demands -/
-def caf_info_count_full : Prop := ∀ chunk_size : Int, 4 ≤ chunk_size → (HeaderCache.Item.b (cafInfoCount chunk_size)).argsOk
-
-/-- fails for the size 0xFF0000E6 of findings/C03-caf-info-pipe.txt (ASan: negative-size-param in memset) -/
-theorem caf_info_count_fails : ¬ caf_info_count_full := by
-  intro h
-  have := h 0xFF0000E6 (by decide)
-  revert this
-  decide
-
-theorem caf_info_count_partial (chunk_size : Int) (h : ¬ KF.cafInfoNegative chunk_size) :
-    (HeaderCache.Item.b (cafInfoCount chunk_size)).argsOk := by
-  unfold KF.cafInfoNegative at h
-  unfold HeaderCache.Item.argsOk
-  omega
-
-/-- non-vacuity: ordinary sizes are outside the class; with a regular file the caller's own test keeps them small -/
-example : ¬ KF.cafInfoNegative 230 ∧ cafInfoCount 230 = 226 ∧ KF.cafInfoNegative 0xFF0000E6 ∧ ¬ KF.cafInfoNegative 0x80000003 ∧ KF.cafInfoNegative 0x80000004 := by decide
+caf_read_strings passed `(size_t) (chunk_size - 4)` to the 'b' conversion of psf_binheader_readf, which stores it
+in an `int`; on a pipe nothing bounded chunk_size (known finding KF-C03-caf-info-pipe, repaired by fix 0004, now
+`fixed`).  The current rule (`caf_info_count`, full strength) and the old rule's failure
+(`caf_info_count_fails_old_rule`, `caf_info_count_partial_old_rule`) are in SfProps/C03Loops.lean. -/
 
 /-! ## 7. NIST `sample_coding` : an unchecked sscanf
 
